@@ -87,3 +87,65 @@ def register(name):
         OPS[name] = fn
         return fn
     return deco
+
+
+@register("time_n2p")
+def op_time_n2p(case):
+    from tel2puml.utils import unix_nano_to_pv_string
+    out = []
+    for x in case["xs"]:
+        try:
+            out.append(unix_nano_to_pv_string(x))
+        except Exception as e:  # noqa: BLE001
+            out.append({"error": repr(e)})
+    return {"out": out}
+
+
+@register("time_p2n")
+def op_time_p2n(case):
+    from tel2puml.pv_to_tel import convert_timestamp_to_unix_nano
+    from tel2puml.utils import unix_nano_to_pv_string
+    out = []
+    for p in case["ps"]:
+        try:
+            x = convert_timestamp_to_unix_nano(p)
+            out.append([x, unix_nano_to_pv_string(x)])
+        except Exception as e:  # noqa: BLE001
+            out.append([{"error": repr(e)}, None])
+    return {"out": out}
+
+
+@register("sequence")
+def op_sequence(case):
+    """run the real sequencer on call-tree cases; returns per case the emitted PV job (or the error)"""
+    from tel2puml.otel_to_pv.otel_to_pv_types import OTelEvent, OTelEventTypeMap
+    from tel2puml.otel_to_pv.sequence_otel import sequence_otel_job_id_streams
+    t0, mn = 1_700_000_000_000_000_000, 60_000_000_000
+    rnd = random.Random(case.get("seed", 0))
+    outs = []
+    for c in case["cases"]:
+        n = c["n"]
+        kids = {i: [] for i in range(1, n + 1)}
+        for i in range(2, n + 1):
+            kids[c["par"][i - 1]].append(i)
+        evs = []
+        for i in range(1, n + 1):
+            ch = ["s%d" % k for k in kids[i]]
+            rnd.shuffle(ch)
+            evs.append(OTelEvent(job_name=c.get("name", "wf"), job_id=c.get("job", "job-1"), event_type=c["ty"][i - 1],
+                                 event_id="s%d" % i, start_timestamp=t0 + c["s"][i - 1] * mn,
+                                 end_timestamp=t0 + c["e"][i - 1] * mn, application_name=c.get("app", "app-x"),
+                                 parent_event_id=None if i == 1 else "s%d" % c["par"][i - 1], child_event_ids=ch))
+        rnd.shuffle(evs)
+        grp = {}
+        for p, ct, g in c["grp"]:
+            grp.setdefault(p, {})[ct] = g
+        ren = {r["from"]: OTelEventTypeMap(mapped_event_type=r["to"], child_event_types=set(r["kids"])) for r in c["ren"]}
+        try:
+            jobs = list(sequence_otel_job_id_streams([evs], async_flag=c["async"], event_to_async_group_map=grp or None,
+                                                     event_types_map_information=ren or None))
+            pv = [dict(e) for j in jobs for e in j]
+            outs.append({"pv": pv, "njobs": len(jobs)})
+        except Exception as e:  # noqa: BLE001
+            outs.append({"error": "%s: %s" % (type(e).__name__, str(e)[:200])})
+    return {"outs": outs}
